@@ -146,6 +146,37 @@ func (w *World) verifyContract(con *Contract, opts *RunOpts) (res *FuncResult) {
 					st.assume(d)
 				}
 			}
+			// `option after-call p=shape`: the scenario starts AFTER a first call of the
+			// function itself (same arguments, parameter p replaced): for properties of
+			// call sequences on one receiver (add twice, look up after insert)
+			if ac, ok := con.option("after-call"); ok {
+				eq := strings.Index(ac, "=")
+				if eq < 0 {
+					panic(specPanic{con.Pos + ": option after-call param=shape"})
+				}
+				pn, shp := strings.TrimSpace(ac[:eq]), strings.TrimSpace(ac[eq+1:])
+				args0 := append([]Val{}, sc.Args...)
+				found := false
+				for k, p := range fn.Params {
+					if p.Name() == pn {
+						alts, ok := e.customShape(pn, p.Type(), shp)
+						if !ok || len(alts) == 0 {
+							panic(specPanic{con.Pos + ": option after-call: shape " + shp + " not understood"})
+						}
+						v, _ := alts[0](st)
+						args0[k] = v
+						found = true
+					}
+				}
+				if !found {
+					panic(execPanic{"option after-call: no parameter " + pn})
+				}
+				outs0 := e.run(st, fn, args0)
+				if len(outs0) != 1 || outs0[0].Panic != "" {
+					panic(execPanic{fmt.Sprintf("option after-call: the first call has %d outcomes (one, not panicking, expected)", len(outs0))})
+				}
+				st = outs0[0].St
+			}
 			res.Stats.Shapes++
 			pre := st.snapshot()
 			for c := range st.Fresh {
